@@ -108,3 +108,25 @@ func readHarness(rel string) (string, error) {
 	b, err := os.ReadFile(filepath.Join(verifRoot, "harness", rel))
 	return string(b), err
 }
+
+// ---- C16: the file stream over the model file system ----
+
+func init() {
+	register(&CheckDef{ID: "C16", Level: "model_checking", Only: []string{"C16."},
+		Jobs: func(tier string) []JobDef {
+			steps := 3
+			if tier == "thorough" {
+				steps = 4
+			}
+			return []JobDef{{Name: fmt.Sprintf("history-%d", steps), Pkg: logstreamPkg, Dir: "internal/tailer/logstream",
+				Harness: []string{"logstream/c16.go"}, EngineOnly: []string{"logstream/c16_engine.go"}, NativeOnly: []string{"logstream/c16_native.go"},
+				Entry: "HarnessC16History", Params: p("steps", steps),
+				Bound: fmt.Sprintf("file present before tailing (empty or holding one earlier line); every history of %d steps over {append line, append fragment of 1 or 2 bytes, append CRLF line, truncate, rename+create, copy+truncate, delete, re-create, poll} with arbitrary payload bytes, each step observed by the stream before the next; then tailing stops", steps)}}
+		},
+		Assumptions: append([]string{
+			"the file system is a model with inodes, open descriptors that keep their inode, Seek, Stat/SameFile/IsNotExist (natively: a real temporary directory)",
+			"the stream goroutines run under the engine's deterministic scheduler; the harness waker reports when the stream goes idle, which is the property's 'has observed each step' premise, so no claim is made for edits that race with a read",
+			"re-creation after a deletion is followed by the tailer opening a new stream for the path (done by the harness as tail.go does, not seeking past data since the file is new and empty)",
+		}, baseAssumptions...),
+		Outside: []string{"histories longer than the bound; payloads longer than one byte per append (framing of longer data is C15)", "several edits between two polls", "read errors, ESTALE", "pipes, sockets (C17), glob polling (C18)"}})
+}
